@@ -345,3 +345,79 @@ def role_radii(ctx):
                                % (norm_text(use)[:100], label, out_i, sorted(comps), want,
                                   'lat/north' if want == 0 else 'lon/east'))
     ctx.floor('ROLE-RADII', n, 8, 'radius uses')
+
+
+# ------------------------------------------------------------------ PARITY-ECEF
+class _EH(RotHooks):
+    """evaluate ecef_to_lla for the generic sample under a named configuration:
+    sign of z and the outcome of every other element-wise comparison."""
+
+    def __init__(self, z_atom, z_negative, mask):
+        self.z_atom, self.z_negative, self.mask = z_atom, z_negative, mask
+        self.masks_seen = 0
+
+    def compare(self, ev, node, a, b):
+        A = ev.A
+        try:
+            ra, rb = ev.rat(a), ev.rat(b)
+        except Exception:
+            return None
+        if A.is_const(ra) and A.is_const(rb):
+            return None
+        # z < 0 / z > 0 / z >= 0 ...
+        import ast as _ast
+        if A.key(ra) == A.key(A.sym(self.z_atom)) and A.is_const(rb) and A.const_of(rb) == 0:
+            op = node.ops[0]
+            if isinstance(op, (_ast.Lt, _ast.LtE)):
+                return self.z_negative
+            if isinstance(op, (_ast.Gt, _ast.GtE)):
+                return not self.z_negative
+        self.masks_seen += 1
+        return self.mask
+
+    def call(self, ev, q, node, args, kwargs, env):
+        if q == 'builtins.abs' and args:
+            A = ev.A
+            v = args[0]
+            if isinstance(v, Rat) and A.key(v) == A.key(A.sym(self.z_atom)):
+                return A.neg(v) if self.z_negative else v
+        return RotHooks.call(self, ev, q, node, args, kwargs, env)
+
+
+def parity_ecef(ctx):
+    ctx.rule('PARITY-ECEF', 'ecef_to_lla is mirror-symmetric: under z -> -z the latitude changes '
+             'sign, longitude and altitude are unchanged (every comparison outcome)')
+    repo = ctx.repo
+    f = repo.function('transform.ecef_to_lla')
+    n = 0
+    for mask in (True, False):
+        res = {}
+        alg = Alg()
+        for zneg in (False, True):
+            h = _EH('z', zneg, mask)
+            ev = SymEval(repo, alg, hooks=h)
+            A = ev.A
+            r = SArray((3,), {(0,): A.sym('x'), (1,): A.sym('y'), (2,): A.sym('z')}, None, True)
+            try:
+                out = ev.call_function(f, [r])
+            except Unsupported as e:
+                raise AnalysisError('ecef_to_lla not analysable (z<0=%s, mask=%s): %s'
+                                    % (zneg, mask, e))
+            ctx.need(isinstance(out, SArray) and out.shape == (3,), 'ecef_to_lla result shape')
+            res[zneg] = out
+        A = alg
+        flip = {'z': A.neg(A.sym('z'))}
+        names = ['latitude', 'longitude', 'altitude']
+        for k in range(3):
+            mirrored = A.subst(res[True].get((k,)), flip)      # southern formula at -z, z > 0
+            want = A.neg(res[False].get((k,))) if k == 0 else res[False].get((k,))
+            ok = A.eq(mirrored, want)
+            n += 1
+            ctx.ob('PARITY-ECEF', ok, None, '%s(x, y, -z) == %s%s(x, y, z)  [comparison outcome %s]'
+                   % (names[k], '-' if k == 0 else '', names[k], mask), f=f,
+                   key='mirror-%s-%s' % (names[k], mask),
+                   why='ecef_to_lla is not mirror-symmetric in z: the %s of a southern point is '
+                       'not the %s of its northern mirror image (e.g. a correction applied after '
+                       'the hemisphere sign flip)' % (names[k], 'negated latitude' if k == 0
+                                                      else 'same ' + names[k]))
+    ctx.floor('PARITY-ECEF', n, 6, 'mirror identities')
